@@ -549,7 +549,17 @@ func checkC04(c *Ctx, r *Report) {
 			continue
 		}
 		dos := findInstrs(f, callPred("(*sync.Once).Do"))
-		r8.mustPass(f, cm(k)+": every return passes closeOnce.Do", &Cut{Fn: f, Target: isRetInstr, Sep: inSet(dos)}, len(dos))
+		// (one of the two may simply call the other)
+		var sibling []ssa.Instruction
+		for _, k2 := range []string{"Close", "CloseWithError"} {
+			if k2 != k {
+				sibling = append(sibling, findInstrs(f, callPred(cm(k2)))...)
+			}
+		}
+		r8.mustPass(f, cm(k)+": every return passes closeOnce.Do", &Cut{Fn: f, Target: isRetInstr, Sep: inSet(append(append([]ssa.Instruction{}, dos...), sibling...))}, len(dos))
+		if len(dos) == 0 && len(sibling) >= 1 {
+			continue
+		}
 		okBody := len(dos) >= 1
 		for _, do := range dos {
 			g := installedFunc(callArgs(do.(ssa.CallInstruction))[1])
